@@ -51,6 +51,10 @@ func classifyReplay(s string) string {
 
 // nativeReplayRaw returns the raw output of the native run.
 func nativeReplayRaw(rep *ReplayFile) string {
+	return nativeRun(rep, preludeTest(rep.PkgName), "^TestVHReplay$")
+}
+
+func nativeRun(rep *ReplayFile, testSrc, runRe string) string {
 	tmp, err := os.MkdirTemp("", "symgo-replay-")
 	if err != nil {
 		return "error: " + err.Error()
@@ -81,7 +85,7 @@ func nativeReplayRaw(rep *ReplayFile) string {
 	for n, c := range rep.Files {
 		put(n, c)
 	}
-	put("zz_vh_replay_test.go", preludeTest(rep.PkgName))
+	put("zz_vh_replay_test.go", testSrc)
 	if wg := rep.Model["_written_globals"]; wg != "" {
 		// the executor saw writes to these package-level variables: watch them natively
 		var sb strings.Builder
@@ -98,7 +102,7 @@ func nativeReplayRaw(rep *ReplayFile) string {
 	modelPath := filepath.Join(tmp, "model.json")
 	mb, _ := json.Marshal(map[string]interface{}{"Model": rep.Model})
 	os.WriteFile(modelPath, mb, 0o644)
-	cmd := exec.Command("go", "test", "-vet=off", "-count=1", "-run", "^TestVHReplay$", "-v", "-overlay", ovPath, ".")
+	cmd := exec.Command("go", "test", "-vet=off", "-count=1", "-run", runRe, "-v", "-overlay", ovPath, ".")
 	cmd.Dir = rep.PkgDir
 	cmd.Env = append(os.Environ(), "VH_REPLAY="+modelPath, "VH_HARNESS="+rep.Harness)
 	done := make(chan struct{})
